@@ -72,6 +72,13 @@ theorem port_accepts_with_room (c : Cfg) (hw : c.width = 1) (ops : List Op) (hok
     (hroom : (run c ops).outBuf.length + c.banks * c.post ≤ c.top) (k : Nat) : accepts c (run c ops) k = true :=
   accepts_of_room c _ (run_inv c hw ops) (run_LI c ops hok hw) (run_bnd c ops hok hw) hroom k
 
+/-- **… the finer form** (the coarse one is never met by MI300A's 16·128 > 1024): the port takes every bank's responses
+in a tick whenever the outgoing buffer has room for all responses that are waiting in the post-pipeline buffers — in
+particular whenever the environment keeps the outgoing buffer at most `top − postTotal` full. -/
+theorem port_accepts_when_waiting_fits (c : Cfg) (hw : c.width = 1) (ops : List Op) (hok : ∀ op ∈ ops, opOk c op)
+    (hroom : (run c ops).outBuf.length + postTotal (run c ops) ≤ c.top) (k : Nat) : accepts c (run c ops) k = true :=
+  accepts_of_room' c _ (run_inv c hw ops) (run_LI c ops hok hw) hroom k
+
 /-- **Back-pressure: nothing is lost or duplicated while the port is blocked.** If the outgoing buffer is full and the
 environment retrieves nothing during `ops2` (any number of ticks and new deliveries), then no response is emitted, the
 buffer is untouched, and for every bank the in-flight requests are exactly the old ones, in the same order, followed by
@@ -102,6 +109,30 @@ theorem no_panic_on_ok_traffic (c : Cfg) (hw : c.width = 1) (ops : List Op) (hok
     (tickFlags c (run c ops)).2 = false :=
   tick_nofault c _ (run_inv c hw ops) (run_LI c ops hok hw)
 
+/-- would-be stronger liveness: count every tick that *starts* with an empty outgoing buffer (the environment retrieved
+everything) instead of the ticks in which the bank's responses were all taken -/
+def liveness_drained_full : Prop := ∀ (c : Cfg) (ops1 ops2 : List Op) (r : Req), c.width = 1 → 0 < c.depth → 0 < c.post →
+  0 < c.banks → 0 < c.top → (∀ op ∈ ops1 ++ ops2, opOk c op) → r ∈ (run c ops1).arrived →
+  (ahead c (run c ops1) r + 1) * latencyBound c ≤ drainedTicks c (run c ops1) ops2 →
+  r ∈ (run c (ops1 ++ ops2)).resp.map (·.req)
+
+def starveCfg : Cfg := ⟨2, 6, 1, 1, 1, 8, 5, 1, 1, none, none⟩
+def starveRounds (n : Nat) : List Op := (List.range n).flatMap fun i => [.deliver .wr 0 1 [i] none, .tick, .out 1]
+/-- six writes to bank 0 (one per tick, every response retrieved at once), then a read of 0x40 (bank 1) -/
+def starvePre : List Op := starveRounds 6 ++ [.deliver .rd 0x40 1 [] none, .tick, .out 1]
+
+/-- **Refuted: `finalizeBanks` serves the banks in index order.** Two banks, port buffers of one entry, row-miss delay 5:
+a stream of one write per tick to bank 0 builds a backlog behind its first row miss; the read of bank 1 (request 6,
+alone in its bank, bound 1·9 ticks) then finds the single outgoing slot taken by bank 0 in every tick — after 60 more
+ticks, each starting with an **empty** outgoing buffer, requests 7…59 are answered and request 6 is not. Hence liveness
+needs the per-bank hypothesis of `liveness_bounded`; the scenario runs on the real component in every check. -/
+theorem liveness_drained_full_refuted : ¬ liveness_drained_full := by
+  intro h
+  have := h starveCfg starvePre (starveRounds 60) ⟨6, .rd, 0x40, 1, [], none⟩ rfl (by decide) (by decide) (by decide)
+    (by decide) (by decide +kernel) (by decide +kernel) (by decide +kernel)
+  revert this
+  decide +kernel
+
 /-! ### non-vacuity -/
 
 def mi300aL : Cfg := ⟨16, 6, 1, 5, 1, 11, 52, 128, 1024, some ⟨128, 16, 0, 0⟩, some 4294967296⟩
@@ -116,6 +147,17 @@ example : wr0 ∈ (run mi300aL ([.deliver .wr 0x40 4 [1, 2, 3, 4] none] ++
     (.tick :: .deliver .rd 0x40 4 [] none :: List.replicate 59 .tick))).resp.map (·.req) :=
   liveness_bounded mi300aL rfl (by decide) (by decide) (by decide) _ _ (by decide +kernel) wr0 (by decide +kernel)
     (by decide +kernel)
+
+/-- MI300A parameters, 62 ticks into the write/read scenario: the finer room condition holds (the coarse one cannot) -/
+example : (run mi300aL ([.deliver .wr 0x40 4 [1, 2, 3, 4] none, .tick, .tick, .deliver .rd 0x40 4 [] none]
+      ++ List.replicate 58 .tick)).outBuf.length +
+    postTotal (run mi300aL ([.deliver .wr 0x40 4 [1, 2, 3, 4] none, .tick, .tick, .deliver .rd 0x40 4 [] none]
+      ++ List.replicate 58 .tick)) ≤ mi300aL.top ∧ ¬ (0 + mi300aL.banks * mi300aL.post ≤ mi300aL.top) := by
+  decide +kernel
+
+/-- the explicit bound on the same scenario: nothing ahead of the write in its bank, so 1 · 60 accepting ticks suffice -/
+example : (ahead mi300aL (run mi300aL [.deliver .wr 0x40 4 [1, 2, 3, 4] none]) wr0 + 1) * latencyBound mi300aL = 60 := by
+  decide +kernel
 
 def tiny : Cfg := ⟨2, 6, 1, 1, 1, 0, 0, 1, 1, none, none⟩
 /-- back-pressure: port buffer of one slot, full and never drained — the second write stays in flight, nothing is emitted -/
